@@ -340,4 +340,8 @@ def run(ctx):
         protocol.report(ctx, tu, lambda r: True)   # the whole step protocol is a premise of this property
         c04h(ctx, tu)
         units.append({"unit": tu.name, "functions": len(tu.fns)})
+    # "an ALLOW or FORBID expectation never reports at end of life" rests on what those spellings are: REQUIRE_CALL with
+    # lower bound 0, in every macro family (token-equality of the expansions, C03.c / C07.a)
+    from rules import C03
+    C03.macro_tables(ctx, ("C03.c", "C07.a"))
     ctx.extra["units"] = units
